@@ -14,7 +14,7 @@ Emit ==
     THEN PrintT(<<"CASE", ToJson([fn |-> x.fn, args |-> x.args, exp |-> x.exp, strict |-> x.strict,
                                   asis |-> TPAsIs(TPDevs),
                                   without |-> [d \in TPDevs |-> TPAsIs(TPDevs \ {d})]])>>)
-    ELSE IF x.fn = "plural"
+    ELSE IF x.fn = "plural" /\ ~IsSpelledCall      \* (the as-is deviation of plural does not depend on how the number is written)
     THEN PrintT(<<"CASE", ToJson([fn |-> x.fn, args |-> x.args, exp |-> x.exp, strict |-> x.strict,
                                   asis |-> RS(IF NArgs >= 3 THEN Trim(A(3).s) ELSE <<>>),
                                   without |-> [d \in DevPlural |-> x.exp]])>>)
